@@ -1,7 +1,8 @@
 """Grammar-aware random source generator for dicescript programs (shared by several checks).
 Every choice derives from the random.Random instance passed in."""
 
-IDENTS = ["x", "y", "z", "v1", "val", "arr", "m", "力量", "敏捷", "_t", "hp", "n"]
+# some names end in a character whose last UTF-8 byte is 0x85 / 0xA0 (bytes that unicode.IsSpace accepts as runes U+0085 / U+00A0)
+IDENTS = ["x", "y", "z", "v1", "val", "arr", "m", "力量", "敏捷", "_t", "hp", "n", "体内", "夠", "nà"]
 # dice letters a b c d f p are dice heads when the families are enabled: never used as names
 FUNCS = ["g", "h", "fn1", "fib"]
 STRS = ["", "abc", "x y", "力量", "a{b", "it's", 'q"q', "1", "0"]
@@ -239,7 +240,8 @@ def mutate(rnd, s):
 def st_input(rnd):
     """`^st` command lists (assignments or modifications)"""
     names = ["力量", "敏捷", "智力", "hp", "san", "射击:弓箭", "属性"]
-    vals = lambda: rnd.choice(["60", "7", "1d1", "(1+2)", "2d1+1", "1.5", "10"])
+    vals = lambda: rnd.choice(["60", "7", "1d1", "(1+2)", "2d1+1", "1.5", "10", "60", "7", "(`{% if 1 { 2 } %}`)", "(`{% x = 0; while x < 1 { x = x + 1 } %}`)",
+                               "(2d)", "(1|2)", "(`{% func g() { 1 } %}`)", "`{1}`"])
     if rnd.random() < 0.5:
         items = []
         for _ in range(1 + rnd.randrange(4)):
